@@ -93,6 +93,24 @@ fn lib_eval(r: &Ref, c: &Value, s: Suite, seed: u64) -> String {
                 o => o.detail(),
             }
         }
+        "prepare" => {
+            use zkryptium::bbsplus::blind::prepare_parameters;
+            use bls12_381_plus::group::Curve;
+            let api = api_bytes(r, s, c["api"].as_str().unwrap());
+            let l = c["L"].as_u64().unwrap() as usize;
+            let m = c["M"].as_u64().unwrap() as usize;
+            let msgs: Vec<Vec<u8>> = (0..l).map(|i| prg(seed, "pm", i as u64, 0, 5 + i)).collect();
+            let cms: Vec<Vec<u8>> = (0..m).map(|i| prg(seed, "pc", i as u64, 0, 6 + i)).collect();
+            let got = match s {
+                Suite::Sha => lib::guard(Some(4 * (l + m + 2) + 16), || prepare_parameters::<Bls12381Sha256>(Some(&msgs), Some(&cms), l + 1, m + 1, None, api.as_deref())),
+                Suite::Shake => lib::guard(Some(4 * (l + m + 2) + 16), || prepare_parameters::<Bls12381Shake256>(Some(&msgs), Some(&cms), l + 1, m + 1, None, api.as_deref())),
+            };
+            match got {
+                Out::Ok((sc, g)) => format!("Ok:{}:{}", sc.iter().map(|x| hex::encode(x.to_bytes_be())).collect::<Vec<_>>().join(","),
+                    g.values.iter().map(|p| hex::encode(p.to_affine().to_compressed())).collect::<Vec<_>>().join(",")),
+                o => o.detail(),
+            }
+        }
         k => panic!("kind {k}"),
     }
 }
@@ -126,6 +144,18 @@ fn ref_eval(r: &Ref, c: &Value, s: Suite, seed: u64) -> String {
             let g = r.generators(s, &api, n);
             format!("Ok:{}:{}", hex::encode(pt_bytes(&r.p1(s))), g.iter().map(|p| hex::encode(pt_bytes(p))).collect::<Vec<_>>().join(","))
         }
+        "prepare" => {
+            let api = api_bytes(r, s, c["api"].as_str().unwrap()).unwrap_or_default();
+            let l = c["L"].as_u64().unwrap() as usize;
+            let m = c["M"].as_u64().unwrap() as usize;
+            let msgs: Vec<Vec<u8>> = (0..l).map(|i| prg(seed, "pm", i as u64, 0, 5 + i)).collect();
+            let cms: Vec<Vec<u8>> = (0..m).map(|i| prg(seed, "pc", i as u64, 0, 6 + i)).collect();
+            let mut sc = r.msg_scalars(s, &api, &msgs);
+            sc.extend(r.msg_scalars(s, &api, &cms));
+            let mut g = r.generators(s, &api, l + 1);
+            g.extend(r.generators(s, &[&r.lay.blind_gen_prefix.as_bytes()[..], &api[..]].concat(), m + 1));
+            format!("Ok:{}:{}", sc.iter().map(|x| hex::encode(sc_bytes(x))).collect::<Vec<_>>().join(","), g.iter().map(|p| hex::encode(pt_bytes(p))).collect::<Vec<_>>().join(","))
+        }
         k => panic!("kind {k}"),
     }
 }
@@ -150,6 +180,15 @@ pub fn run(r: &Ref, cases: &[Value], seed: u64, threads: usize) -> DReport {
             }
             if (spec_res == "Ok") != got.starts_with("Ok") {
                 rep.bad("C10", c, format!("{} under {}: decision differs from the specification's size limits", c["kind"], s.name()), spec_res.to_string(), got.chars().take(40).collect());
+            }
+            if c["kind"] == "prepare" && got.starts_with("Ok:") {
+                let parts: Vec<&str> = got.splitn(3, ':').collect();
+                let vals: Vec<&str> = parts[2].split(',').collect();
+                let set: HashSet<&&str> = vals.iter().collect();
+                rep.tick("C11");
+                if set.len() != vals.len() {
+                    rep.bad("C11", c, format!("prepare_parameters under {}: message generators and committed-message generators share a point", s.name()), "disjoint, duplicate-free".into(), "repeated point".into());
+                }
             }
             if c["kind"] == "gens" && got.starts_with("Ok:") {
                 let parts: Vec<&str> = got.splitn(3, ':').collect();
